@@ -14,7 +14,7 @@ ASSUMPTIONS = ["penalties are dyadic rationals: float arithmetic of the implemen
 
 
 def budget(tier):
-    return 3000 if tier == "quick" else 60000
+    return 12000 if tier == "quick" else 120000
 
 
 def gen(rng, index, tier):
